@@ -122,6 +122,15 @@ impl InputBytes {
             let player_byte_slice = &self.bytes[start..end];
             let input: T::Input = bincode::deserialize(player_byte_slice)
                 .map_err(|e| format!("failed to deserialize input for player {p}: {e}"))?;
+            // bincode ignores trailing bytes: a slice that is longer than the input it encodes
+            // is just as malformed as one that is too short
+            let consumed = bincode::serialized_size(&input)
+                .map_err(|e| format!("failed to measure input for player {p}: {e}"))?;
+            if consumed != size as u64 {
+                return Err(format!(
+                    "input for player {p} has {size} bytes, but only {consumed} belong to an input"
+                ));
+            }
             player_inputs.push(PlayerInput::new(self.frame, input));
         }
         Ok(player_inputs)
